@@ -2,7 +2,7 @@
 From Coq Require Import List NArith ZArith Bool.
 From Coq.Strings Require Import Byte.
 From Coq Require Import QArith.
-From Model Require Import Bytes Sx Utf8 Frame Parser FrameParser Response Conn Persist Handshake Proxy Transport Conc Digest Url.
+From Model Require Import Bytes Sx Utf8 Frame Parser FrameParser Response Conn Persist Handshake Proxy Transport Conc Digest Url Selector.
 Import ListNotations.
 Open Scope N_scope.
 
@@ -202,6 +202,10 @@ Definition cmd_proxy_url (args : list sx) : sx :=
        B (proxy_request (un_B (nth_sx args 1)) (un_N (nth_sx args 2)) cred)]
   end.
 
+(* (42 fuel p now (arrival times...)) -> the instants at which selector.wait(p) returns *)
+Definition cmd_wakes (args : list sx) : sx :=
+  L (map sx_Z (wakes (un_nat (nth_sx args 0)) (un_Z (nth_sx args 1)) (un_Z (nth_sx args 2)) (map un_Z (un_L (nth_sx args 3))))).
+
 (* (40 tls (records...)) -> (chunk sizes ...) *)
 Definition cmd_drain (args : list sx) : sx :=
   let t := {| t_tls := negb (un_N (nth_sx args 0) =? 0); t_readahead := un_N (nth_sx args 0) =? 2;
@@ -248,6 +252,7 @@ Definition run_sx (req : sx) : sx :=
   | L (A 38 :: args) => cmd_url args
   | L (A 39 :: args) => cmd_request_url args
   | L (A 41 :: args) => cmd_proxy_url args
+  | L (A 42 :: args) => cmd_wakes args
   | L (A 40 :: args) => cmd_drain args
   | L (A 50 :: args) => cmd_conc args
   | _ => L [A 998]
